@@ -24,7 +24,7 @@ from translate import TranslateError, lean_str
 NAME = "Sites"
 
 # files whose slice-index expressions are inventoried (decision cores modelled in Lean)
-INDEX_FILES = ["features.rs", "ir/analysis/mod.rs", "codegen/struct_layout.rs", "deps.rs"]
+INDEX_FILES = ["features.rs", "lib.rs", "ir/analysis/mod.rs", "codegen/struct_layout.rs", "deps.rs"]
 
 # files that are not part of the library that generates bindings
 SKIP_FILES = set()
